@@ -10,6 +10,8 @@ RESIZE_STAGES = ["fix_uninit_block_bitmaps", "resize_group_descriptors", "move_b
                  "move_itables", "clear_sparse_super2_last_group", "resize2fs_calculate_summary_stats",
                  "fix_resize_inode", "fix_orphan_file_inode", "fix_sb_journal_backup"]
 
+NS_UW = ["ref_is_power.0:25", "adjust_new_size.0:2", "adjust_new_size.1:2", "adjust_fs_info.0:2", "adjust_fs_info.1:2"]
+
 HARNESSES = [
     dict(name="errflag", src="errflag.c",
          funcs=["resize_fs", "ext2fs_dup_handle"],
@@ -32,15 +34,31 @@ HARNESSES = [
          bound="table of <= 4 runs, locations/lengths < 2^62 (sorted table, add) or < 2^31 (paths through the qsort comparator); "
                "probe address: all 2^64 values"),
     dict(name="newsize", src="newsize.c",
+         funcs=["adjust_new_size", "adjust_fs_info"],
+         extra_src=["lib/ext2fs/blknum.c"],
+         configs=[{"CHECK": 1, "LOGBS": 0, "BPG": 8192, "DESC": 32, "SBITS": 32, "IPG": 8192},
+                  {"CHECK": 1, "LOGBS": 2, "BPG": 32768, "DESC": 64, "SBITS": 36, "IPG": 32768},
+                  {"CHECK": 2, "LOGBS": 0, "BPG": 8192, "DESC": 32, "SBITS": 32},
+                  {"CHECK": 2, "LOGBS": 2, "BPG": 32768, "DESC": 32, "SBITS": 32},
+                  {"CHECK": 2, "LOGBS": 2, "BPG": 32768, "DESC": 64, "SBITS": 36, "_tier": "thorough"},
+                  {"CHECK": 1, "LOGBS": 0, "BPG": 8192, "DESC": 32, "SBITS": 32, "IPG": 2048, "_tier": "thorough"},
+                  {"CHECK": 1, "LOGBS": 2, "BPG": 32768, "DESC": 32, "SBITS": 32, "IPG": 32768, "_tier": "thorough"},
+                  {"CHECK": 1, "LOGBS": 2, "BPG": 32768, "DESC": 64, "SBITS": 36, "IPG": 8192, "_tier": "thorough"},
+                  {"CHECK": 1, "LOGBS": 0, "BPG": 8192, "DESC": 32, "SBITS": 32, "_tier": "thorough"},
+                 ],
+         unwind=4, unwindset=NS_UW, witness_per_config=True,
+         backends=["default", "kissat"],
+         bound="requested/old size: every value < 2^32 (2^36 with 64bit descriptors); block size 1 KiB / 4 KiB, 8192 / 32768 blocks per group "
+               "(concrete per query); inode-table size, reserved GDT blocks, sparse_super / sparse_super2 + backup groups: symbolic; "
+               "inodes per group symbolic in CHECK 2, concrete per query in CHECK 1; ext2fs_bg_has_super cut to the format rule (decided in C20)"),
+    dict(name="newsize_real", src="newsize.c", defs=["REAL_HAS_SUPER"],
          funcs=["adjust_new_size", "adjust_fs_info", "ext2fs_bg_has_super", "test_root"],
          extra_src=["lib/ext2fs/closefs.c", "lib/ext2fs/blknum.c"],
-         configs=[{"LOGBS": 0, "BPG": 8192, "DESC": 32, "SBITS": 32},
-                  {"LOGBS": 2, "BPG": 32768, "DESC": 32, "SBITS": 32},
-                  {"LOGBS": 2, "BPG": 32768, "DESC": 64, "SBITS": 36}],
-         unwind=4, unwindset=["test_root.0:17", "ref_is_power.0:25"],
-         backends=["default", "kissat", "z3"],
-         bound="requested/old size: every value < 2^32 (2^36 with 64bit descriptors); block size 1 KiB / 4 KiB, 8192 / 32768 blocks per group "
-               "(concrete per query); inodes per group, inode-table size, reserved GDT blocks, sparse_super / sparse_super2 + backup groups: symbolic"),
+         configs=[{"CHECK": 2, "LOGBS": 0, "BPG": 8192, "DESC": 32, "SBITS": 24, "_tier": "thorough"},
+                  {"CHECK": 1, "LOGBS": 0, "BPG": 8192, "DESC": 32, "SBITS": 24, "IPG": 8192, "_tier": "thorough"}],
+         unwind=4, unwindset=NS_UW + ["test_root.0:9"],
+         backends=["default", "kissat"], cap_thorough=1200,
+         bound="as newsize, with the real ext2fs_bg_has_super/test_root linked; sizes < 2^24 blocks (<= 2048 groups)"),
 ]
 MANIFEST = {
     "text": "Bounded-exhaustive within each harness's stated bounds.",
